@@ -97,17 +97,17 @@ type wmFlight struct { // a Begin/BeginMany in progress
 }
 
 type wmWorld struct {
-	b         *bed
-	wm        *utils.WaterMark
-	tokens    []*wmToken // held: Begin returned, Done not yet invoked
-	flights   map[int]*wmFlight
+	b       *bed
+	wm      *utils.WaterMark
+	tokens  []*wmToken // held: Begin returned, Done not yet invoked
+	flights map[int]*wmFlight
 	// unitsAtZero[t]: the in-flight units that had not yet incremented their
 	// slot when task t last read a slot as zero in tryAdvance.
 	unitsAtZero map[int][]*wmUnit
 	winAtZero   map[int]any // the window in which it read that zero
-	begun     []uint64 // every index ever begun, ascending, distinct
-	lastBegun uint64
-	beginBusy bool
+	begun       []uint64    // every index ever begun, ascending, distinct
+	lastBegun   uint64
+	beginBusy   bool
 }
 
 func (w *wmWorld) held(idx uint64) int {
